@@ -36,8 +36,14 @@ CLAIMS = {
          "TLC trace validation of accept/reject verdicts against the RFC 8032 verification equation in TLA+"),
  "C15": ("field programs generated by TLC under the operand discipline (FeProg.tla) with the value recomputed after every step; wide reduction, canonical decoding, fixed-base and double-scalar multiplication, group law through every public representation, encode/decode incl. small-order and non-canonical encodings: all against Fe25519.tla / Ed25519.tla", "5 C15",
          "TLC-generated field-expression programs replayed on the implementation + TLC trace validation against bignum field/scalar/group specifications"),
+ "C16": ("identical results whatever instruction-set features the crate is compiled for: the same scripts (SHA-256 x chaining/buffer states x 1..20 blocks x byte offsets 0..31, BLAKE2b/s keyed/unkeyed x lengths x context placements, five cipher variants at input/output offsets, native and portable ChaCha engine queries, and the workloads of the hash/MAC/cipher/KDF properties) executed by the baseline, +sse4.1, +avx and +avx2 builds; each build validated by TLC against the functional specification and all four validated in lock-step by the product specification TraceEquiv; the 8-way/4-way/scalar batching of digest_block is model-checked as a refinement of block-by-block compression (Dispatch.tla)", "5 C16",
+         "TLC model checking of the dispatch/batching machine + TLC trace validation of every build against the TLA+ standards + TLC validation of the K-build product trace"),
+ "C17": ("the crate builds with and without force-32bits under its own lints; the C12-C15 workloads (X25519, Ed25519 sign/verify incl. the adversarial verify set, TLC-generated field programs incl. equality of differently represented values, scalar decoding/reduction around L, group operations) executed by both back-ends; the 32-bit trace validated by TLC against RFC 7748 / RFC 8032 / GF(2^255-19) in TLA+ and both traces validated in lock-step by TraceEquiv", "5 C17",
+         "TLC trace validation of the force-32bits build against the curve specifications + TLC validation of the two-backend product trace"),
+ "C18": ("every helper of constant_time.rs, MacResult == and Tag ==: formulas transcribed at word width 8 and model-checked against their plain meanings on all 2^16 operand pairs (CT.tla); the real helpers evaluated on all byte pairs, the 64-bit boundary set squared + seeded pairs, arrays/slices of every length 0..40 equal or differing at every single position, limb arrays, choice algebra, option wrapper, swap/set for both choices; every result validated by TLC against the plain meaning (TraceCT)", "5 C18",
+         "TLC exhaustive model checking of the branch-free formulas at width 8 + TLC trace validation of the real helpers against their plain meanings"),
 }
-NA = {}
+NA = {"C19": "check not built yet (work in progress; planned per DESIGN.md section 5)", "C20": "check not built yet (work in progress; planned per DESIGN.md section 5)"}
 def main():
     props = [json.loads(l) for l in open(os.path.join(ROOT, "properties.jsonl"))]
     commits = subprocess.run(["git", "-C", "/repo", "log", "--format=%H %s"], capture_output=True, text=True).stdout.splitlines()
